@@ -238,7 +238,31 @@ fn normal_form(w: &World) -> Value {
         }
         publishers.insert(p.to_string(), by_ext);
     }
-    json!({"cas": cas, "rp": rp, "publishers": publishers})
+    // what relying parties are actually served: the RRDP snapshot and the
+    // rsync tree on disk, counted per publisher directory and file type
+    // (content of a removed publisher must be gone from here as well)
+    let count = |files: Vec<String>| -> BTreeMap<String, u64> {
+        let mut m = BTreeMap::new();
+        for u in files {
+            let rest = u.split("/repo/").nth(1).unwrap_or(&u).to_string();
+            // the trust anchor publishes directly under the base URI
+            let dir = if rest.contains('/') {
+                rest.split('/').next().unwrap_or("").to_string()
+            } else { "(base)".to_string() };
+            let ext = u.rsplit('.').next().unwrap_or("").to_string();
+            *m.entry(format!("{dir}|{ext}")).or_insert(0u64) += 1;
+        }
+        m
+    };
+    let rrdp = match kvh::rrdpview::read_rrdp(&w.repo_dir()) {
+        Ok(st) => json!(count(st.snapshot.keys().cloned().collect())),
+        Err(e) => json!({"unreadable": e}),
+    };
+    let rsync = json!(count(
+        kvh::rrdpview::read_rsync(&w.repo_dir()).keys().cloned().collect()
+    ));
+    json!({"cas": cas, "rp": rp, "publishers": publishers,
+           "rrdp_snapshot": rrdp, "rsync_tree": rsync})
 }
 
 fn first_diff(a: &Value, b: &Value, path: String) -> Option<String> {
